@@ -456,7 +456,13 @@ func c08Converge(h *ipamHist) {
 		case onNode && re == nil:
 			m.violate("C08", "C08.record-cloud-disagree", "attached-interface-not-recorded", fmt.Sprintf("%s (%s) is attached to the node but absent from the record after a full sync", id, e.Status))
 		case !onNode && m.createdOK[id] && re == nil:
-			m.violate("C08", "C08.leaked-interface", "created-not-recorded", fmt.Sprintf("%s was created by the controller (id returned), is %s in the cloud, and is neither deleted nor recorded for deletion", id, e.Status))
+			site := "created-not-recorded"
+			if m.delFailed[id] && m.writeLost[id] {
+				// attach failed, the rollback delete failed, and the status write that would have recorded the
+				// interface for deletion failed too: three faults in a row, its own site
+				site += "/delete-failed+record-write-failed"
+			}
+			m.violate("C08", "C08.leaked-interface", site, fmt.Sprintf("%s was created by the controller (id returned), is %s in the cloud, and is neither deleted nor recorded for deletion", id, e.Status))
 		case !onNode && re != nil:
 			m.violate("C08", "C08.record-cloud-disagree", "recorded-interface-not-attached", fmt.Sprintf("%s is recorded (%s) but not attached in the cloud (%s)", id, re.Status, e.Status))
 		}
